@@ -20,7 +20,7 @@ META = {
     ],
     "floors": {
         "quick": {"instructions_compared": 40000, "detector_shape_1": 100, "detector_shape_2": 100, "detector_shape_3": 100, "detector_shape_4": 100,
-                  "detector_shape_5": 100, "unsupported_omitted": 2000, "before_after_unroll": 3000, "library_before_after": 40, "repeat_blocks": 500, "exports_after_field_edit": 500},
+                  "detector_shape_5": 100, "unsupported_omitted": 2000, "before_after_unroll": 3000, "library_before_after": 40, "repeat_blocks": 500, "exports_after_field_edit": 500, "programs_with_zero_count": 100},
         "thorough": {"instructions_compared": 400000, "before_after_unroll": 30000, "library_before_after": 300},
     },
 }
@@ -41,6 +41,12 @@ def plan(tier: str, seed: int) -> List[Dict[str, Any]]:
 
 
 def gen_case(rng: random.Random, cls: str) -> Dict[str, Any]:
+    if rng.random() < 0.06:
+        # a sub-circuit whose count is 0 is exported 0 times ("repeated their repetition count"); the clauses about unrolling assume
+        # counts >= 1 and are skipped for such a program
+        prog = gen.gen_program(rng, cls, fields=True, reps=[0, 1, 2], p_sub=0.3, max_depth=2)
+        prog["has_zero_count"] = True
+        return prog
     return gen.gen_program(rng, cls, fields=True, reps=[1, 1, 2, 3], p_sub=0.25, max_depth=2)
 
 
@@ -160,6 +166,18 @@ def compare(acc: Acc, case, label: str, got: List[Tuple], want: List[Tuple]):
                 {"only_exported": only_a[:4], "only_expected": only_b[:4]})
 
 
+def kinds_census(built, acc: Acc, case) -> None:
+    """The operations the exporter walks are the ones the build program added (kind by kind): an exporter can only be 'the image
+    of the circuit' if the circuit it is handed still is the build program (copies made while nesting keep every kind)."""
+    from collections import Counter
+    lib = Counter(type(o).__name__ for o in snap.walk_leaves(built.top.circuit.circuit_structure))
+    mod = Counter(n.kind for n, _, _ in M.leaf_records(built.top.mnodes, built.ctx.S, 0.0))
+    acc.count("kind_census_checks")
+    if lib != mod:
+        acc.finding("export/circuit-differs-from-build-program", "the circuit handed to the exporter does not hold the operation kinds the build program added", case,
+                    {"only_circuit": dict(lib - mod), "only_program": dict(mod - lib)})
+
+
 def check_program(prog: Dict[str, Any], acc: Acc, flags=None):
     flags = flags if flags is not None else {}
     ctx = bp.Ctx(prog.get("settings"))
@@ -169,6 +187,7 @@ def check_program(prog: Dict[str, Any], acc: Acc, flags=None):
     with ctx.global_override():
         built = bp.build(prog, ctx)
         circuit = built.top.circuit
+        kinds_census(built, acc, case)
         sc = export(circuit, acc, case, "as built")
         if sc is None:
             return
@@ -193,6 +212,9 @@ def check_program(prog: Dict[str, Any], acc: Acc, flags=None):
             got = stim_stream(sc_e)
             compare(acc, case, "after editing coordinate shifts", got, expected_stream(circuit.circuit_structure, None))
             sc = sc_e
+        if prog.get("has_zero_count"):
+            acc.count("programs_with_zero_count")
+            return
         # before / after unrolling: same multiset of instructions, same number of measurements
         n_meas = sc.num_measurements
         top_reps = circuit.circuit_structure.nr_of_repetitions
